@@ -40,10 +40,12 @@ def run(tier, seed):
   rep = C.Report('C05', tier, seed)
   rep.rule = ('translator: per SQLDataStore method the read/write/commit/rollback skeleton is regenerated from sql_datastore.py and '
               're-checked by the kernel; crash harness: after a generated prefix of calls a child process runs one RPC on an SQLite '
-              'file and is killed (os._exit) just before the k-th SQL statement or commit; a fresh server reopens the file; '
+              'file and is killed (os._exit) just before the k-th SQL statement or commit; a fresh server reopens the file; large transactions '
+              '(60-90 fat trials deleted / annotated by one call) with a one-page cache; '
               'non-trivial = the interrupted RPC issues at least one write')
   rep.trusted = ['Coq 8.16.1 kernel + vm_compute', 'harness/translate/sqlshape.py (Python-ast translator, fail-closed)',
-                 "SQLite's atomic commit and SQLAlchemy's statement/commit events", 'os._exit as the crash',
+                 "SQLite's atomic commit (with the page cache shrunk to one page in the crash child, so that transactions spill early) and "
+                 "SQLAlchemy's statement/commit events", 'os._exit as the crash',
                  'service model tied by trace-level correspondence (see C01)']
   # ---- translator + theorems
   broke = None
@@ -96,6 +98,29 @@ def run(tier, seed):
       if len(ks) > per_case:
         ks = sorted(r.sample(ks, per_case))
       for k in ks:
+        jobs.append({'prefix': seq, 'rpc': rpc, 'k': k, 'before': before, 'after': after, 'events': events, 'outcome': out})
+
+    # ---- large transactions: one call that rewrites many pages (a study with many fat trials deleted / annotated in one
+    # transaction).  Together with the tiny page cache of the crash child the dirty pages reach the database file before the
+    # COMMIT, so only a rollback journal that survives the process can undo them.
+    for bi in range(2 if tier == 'quick' else 8):
+      ntr = r.choice([60, 90])
+      seq = [('CreateStudy', 1, 1, False, 'SS_ACTIVE', [(1, True)]),
+             ('SuggestTrials', 1, 1, 1, ntr, ('deliver', [r.randrange(100) for _ in range(ntr)], [], [])),
+             ('UpdateMetadata', 1, 1, [], [(t, ('', 'k', 0, 'v' * 300)) for t in range(1, ntr + 1)])]
+      rpc = ('DeleteStudy', 1, 1) if bi % 2 == 0 else \
+          ('UpdateMetadata', 1, 1, [('', 'k', 0, 'w')], [(t, ('', 'k', 0, 'w' * 300)) for t in range(1, ntr + 1)])
+      steps, before, serv = svc.run_sequence('sqlmem', seq, recycle=True)
+      out = svc.apply_rpc(serv, serv.default_pythia_service._policy_factory.h, rpc)
+      after = svc.snapshot(serv)
+      d0 = tempfile.mkdtemp(dir=scratch)
+      rc, so, se = child(d0, {'prefix': seq, 'rpc': rpc, 'k': 0})
+      shutil.rmtree(d0, ignore_errors=True)
+      if rc != 0:
+        raise RuntimeError('crash child failed: %s' % se)
+      events = json.loads(so.strip().splitlines()[-1])['events']
+      rep.count('large_transaction_' + rpc[0])
+      for k in sorted(set([max(1, events - 1), events, events + 1] + ([r.randrange(1, events + 1)] if tier == 'quick' else list(range(1, events + 1))))):
         jobs.append({'prefix': seq, 'rpc': rpc, 'k': k, 'before': before, 'after': after, 'events': events, 'outcome': out})
 
     def do(job):
@@ -161,7 +186,12 @@ def run(tier, seed):
         if lt[0] != 'Done' or lt[2]:
           concrete = True
           rep.violation('re-created study inherits trials of the deleted one after a crash', dict(obj, study=key, listed=jsonable(lt)))
-        rec = svc.snapshot(serv)
+        try:
+          rec = svc.snapshot(serv)
+        except Exception as e:  # pylint: disable=broad-except
+          concrete = True
+          rep.violation('stored records not readable after a crash and one more call: %r' % (e,), dict(obj, study=key))
+          break
       # (iv) clients can continue: a worker without unfinished operation suggests and completes
       for key, n in svcmon.nodes_of(rec).items():
         if n['study']['state'] not in ('SS_ACTIVE', 'SS_UNSPEC'):
